@@ -20,7 +20,7 @@ def mk_case(size, which, pre, preconsume, stream, script, ncalls, mode, src):
 
 
 class Call:
-    __slots__ = ("result", "len", "wlen", "readable", "mem", "pos", "log")
+    __slots__ = ("result", "len", "wlen", "readable", "mem", "pos", "log", "allocs")
 
 
 def parse(tr):
@@ -64,6 +64,10 @@ def parse(tr):
             k = tr[i + 2]
             c.log = tr[i + 3:i + 3 + k]
             i += 3 + k
+            c.allocs = None
+            if i + 1 < n and tr[i] == -4:
+                c.allocs = tr[i + 1]
+                i += 2
             calls.append(c)
         return init, calls
     except IndexError:
